@@ -260,8 +260,13 @@ def walk_trees(
                     and filter_path.startswith(path + b"/")
                     and (is_tree1 or is_tree2)
                 ):
-                    # This is a parent directory of a filter path
-                    yield entry1, entry2
+                    # This is a parent directory of a filter path. Only the
+                    # tree side is on the way to the filter path: a file of
+                    # the same name on the other side is not under it.
+                    yield (
+                        entry1 if is_tree1 else None,
+                        entry2 if is_tree2 else None,
+                    )
                     break
 
 
